@@ -167,6 +167,35 @@ func genC05(r *Rng, tier string) []Case {
 		}
 	}
 
+	// 3b. additivity / last-wins across placements: one skip and one depth at each of
+	//     Define, context and With(...) opts, all 27 skip triples x 4 depth triples
+	depthTriples := [][3]int{{-9, -9, -9}, {1, 40, 2}, {2, -9, 1}, {40, 1, -9}} // -9: not given
+	k3 := 0
+	for s1 := 0; s1 < 3; s1++ {
+		for s2 := 0; s2 < 3; s2++ {
+			for s3 := 0; s3 < 3; s3++ {
+				for _, dt := range depthTriples {
+					mk := func(s, dp int) []c05Opt {
+						os := []c05Opt{{T: "skip", A: s}}
+						if dp != -9 {
+							// depth before or after the skip: order inside one placement is irrelevant
+							if (s+dp)%2 == 0 {
+								os = append(os, c05Opt{T: "depth", A: dp})
+							} else {
+								os = append([]c05Opt{{T: "depth", A: dp}}, os...)
+							}
+						}
+						return os
+					}
+					d := c05Desc{Ctor: k3 % 6, Mode: 1, Def: mk(s1, dt[0]), Ctx: [][]c05Opt{mk(s2, dt[1])}, Opts: mk(s3, dt[2])}
+					k3++
+					c05RandSite(r, &d, 4)
+					out = append(out, runC05(d))
+				}
+			}
+		}
+	}
+
 	// 4. random mixtures: several skips and depths spread over Define, nested
 	//    contexts and the call site; StackSource; deep stacks around 32
 	n := 260
